@@ -103,7 +103,7 @@ def idempotence_body(ctx, case):
     x = case["x"]
     z = run_case(case)
     check_result_shape(z, len(x))
-    case2 = dict(case, y=[float(v) for v in z], as_list=False)
+    case2 = dict(case, y=[float(v) for v in z], as_list=False, yint=False)
     geo2 = matchgen.expected_geometry(case2)
     z2 = run_case(case2)
     check_result_shape(z2, len(x))
